@@ -233,7 +233,7 @@ Proof.
 Qed.
 Print Assumptions C07_no_cross_dispatch_refuted.
 
-(** SECOND REFUTATION (finding D21): [set_dispatch] keeps the cache object, so the hypothesis
+(** SECOND REFUTATION (finding D22): [set_dispatch] keeps the cache object, so the hypothesis
     "same dispatch expression" of [C07_no_cross_dispatch_partial] is needed too: a dataset without
     dispatch is evaluated on {K10: 1} (stored under [K10=1]); set_dispatch(Option(K20, default 5))
     and @overload(5); the same dictionary now has dispatch value 5, registered — the old value is
